@@ -385,3 +385,175 @@ Proof.
 Qed.
 
 End Resolve.
+
+(* ---------- the whole pass: position_finish_offsets ---------- *)
+
+Lemma cdepth_S : forall f ps k,
+  cdepth (S f) ps k =
+  if chain (getp ps k) =? 0 then O
+  else match parent_index ps k with None => O | Some j => S (cdepth f ps j) end.
+Proof. reflexivity. Qed.
+
+(* finite depth everywhere gives a rank that decreases along the links: no cycles *)
+Lemma cdepth_decreases : forall n ps k j,
+  (forall x, udepth_le n ps x) ->
+  chain (getp ps k) <> 0 -> parent_index ps k = Some j ->
+  (cdepth (S n) ps j < cdepth (S n) ps k)%nat.
+Proof.
+  intros n ps k j H Hc Hp.
+  pose proof (H k) as Hk. destruct n as [|m]; cbn [udepth_le] in Hk.
+  - destruct Hk as [Hk|Hk]; [contradiction|]. rewrite Hp in Hk. contradiction.
+  - destruct Hk as [Hk|Hk]; [contradiction|]. rewrite Hp in Hk.
+    rewrite (cdepth_S (S m) ps k). destruct (Z.eqb_spec (chain (getp ps k)) 0); [contradiction|].
+    rewrite Hp. rewrite (cdepth_stable m ps j (S m) Hk) by lia. lia.
+Qed.
+
+Lemma InvP_links : forall d ps0 Pend ps, InvP d ps0 Pend ps -> links_le ps ps0.
+Proof.
+  intros d ps0 Pend ps (Il & _ & Iu & _). split; [exact Il|].
+  intro k. destruct (Z.eq_dec (chain (getp ps k)) 0) as [E|E]; [right; exact E|].
+  left. rewrite (Iu k E). reflexivity.
+Qed.
+
+Lemma InvP_init : forall d ps0, InvP d ps0 (fun _ => False) ps0.
+Proof.
+  intros. split; [reflexivity|]. split; [intro; split; reflexivity|].
+  split; [reflexivity|]. split; [reflexivity|]. intros k H1 H2. contradiction.
+Qed.
+
+Lemma propagate_all_inv : forall d ps0 rk,
+  (forall k j, chain (getp ps0 k) <> 0 -> parent_index ps0 k = Some j -> (rk j < rk k)%nat) ->
+  (forall k, udepth_le MAX_NESTING_LEVEL ps0 k) ->
+  forall is ps F,
+  InvP d ps0 (fun _ => False) ps ->
+  propagate_all d ps is = Some F ->
+  InvP d ps0 (fun _ => False) F /\
+  (forall i, In i is -> chain (getp F i) = 0) /\
+  (forall k, chain (getp ps k) = 0 -> getp F k = getp ps k).
+Proof.
+  intros d ps0 rk Hrk Hdepth. induction is as [|i t IH]; intros ps F Inv Hrun; cbn in Hrun.
+  - inversion Hrun; subst. split; [exact Inv|]. split; [intros i []|]. reflexivity.
+  - destruct (propagate MAX_NESTING_LEVEL d ps i) as [ps1|] eqn:E1; [|discriminate].
+    destruct (propagate_inv d ps0 rk Hrk MAX_NESTING_LEVEL ps i ps1 (fun _ => False) Inv) as (Inv1 & Hi0 & Hfr1); auto.
+    { intros k []. }
+    { apply (udepth_mono _ ps0); [eapply InvP_links; exact Inv | apply Hdepth]. }
+    destruct (IH ps1 F Inv1 Hrun) as (InvF & Hall & Hfr).
+    split; [exact InvF|]. split.
+    + intros k [->|Hk]; [rewrite (Hfr _ Hi0); exact Hi0 | apply Hall; exact Hk].
+    + intros k Hk. rewrite Hfr; [apply Hfr1; exact Hk | rewrite Hfr1; assumption].
+Qed.
+
+(* the result of position_finish_offsets, glyph by glyph *)
+Theorem finish_resolved : forall d ps0 F,
+  (forall k, udepth_le MAX_NESTING_LEVEL ps0 k) ->
+  position_finish_offsets d true ps0 = Some F ->
+  length F = length ps0 /\
+  (forall k, xa (getp F k) = xa (getp ps0 k) /\ ya (getp F k) = ya (getp ps0 k)) /\
+  (forall k, chain (getp ps0 k) = 0 -> getp F k = getp ps0 k) /\
+  (forall i, chain (getp ps0 i) <> 0 ->
+     match parent_index ps0 i with
+     | None => getp F i = set_chain (getp ps0 i) 0
+     | Some j => getp F i = accum_val d (atype (getp ps0 i)) (set_chain (getp ps0 i) 0) (getp F j) (accum_sum d ps0 i j)
+     end).
+Proof.
+  intros d ps0 F Hdepth Hrun. unfold position_finish_offsets in Hrun.
+  set (rk := cdepth (S MAX_NESTING_LEVEL) ps0).
+  assert (Hrk : forall k j, chain (getp ps0 k) <> 0 -> parent_index ps0 k = Some j -> (rk j < rk k)%nat)
+    by (intros; apply cdepth_decreases; assumption).
+  destruct (propagate_all_inv d ps0 rk Hrk Hdepth _ ps0 F (InvP_init d ps0) Hrun) as (Inv & Hall & Hfr).
+  destruct Inv as (Il & Ia & Iu & Iz & Ir).
+  assert (Hz : forall k, chain (getp F k) = 0).
+  { intro k. destruct (Nat.lt_ge_cases k (length ps0)) as [Hk|Hk].
+    - apply Hall. apply in_seq. lia.
+    - unfold getp. rewrite nth_overflow by lia. reflexivity. }
+  split; [exact Il|]. split; [exact Ia|]. split; [intros k Hk; apply Iz; [apply Hz | exact Hk]|].
+  intros i Hi. destruct (Ir i (Hz i) Hi) as [[[] _]|[_ R]].
+  unfold Resolved in R. destruct (parent_index ps0 i); [destruct R as (_ & _ & R); exact R | exact R].
+Qed.
+
+(* ---------- geometry: marks ---------- *)
+
+(* forward processing directions (LTR, TTB): the final array is F itself *)
+Theorem mark_attach_forward : forall d ps0 F i j ma ba,
+  is_forward d = true ->
+  (forall k, udepth_le MAX_NESTING_LEVEL ps0 k) ->
+  position_finish_offsets d true ps0 = Some F ->
+  chain (getp ps0 i) <> 0 -> atype (getp ps0 i) = ATTACH_MARK -> parent_index ps0 i = Some j -> (j < i)%nat ->
+  xo (getp ps0 i) = fst ba - fst ma -> yo (getp ps0 i) = snd ba - snd ma ->
+  anchor_abs F i ma = anchor_abs F j ba.
+Proof.
+  intros d ps0 F i j ma ba Hf Hd Hrun Hc Ht Hp Hji Hx Hy.
+  destruct (finish_resolved d ps0 F Hd Hrun) as (Hl & Ha & _ & Hr).
+  specialize (Hr i Hc). rewrite Hp in Hr.
+  unfold accum_val, accum_sum in Hr. rewrite Ht, Hf in Hr. cbn in Hr.
+  destruct (pen_diff F j i ltac:(lia)) as [Px Py].
+  rewrite (adv_sum_ext (i - j) ps0 F j Ha) in Px, Py.
+  unfold anchor_abs, origin. rewrite Hr. cbn [xo yo set_xo set_yo set_chain fst snd].
+  f_equal; lia.
+Qed.
+
+(* backward processing direction (RTL): the buffer is reversed at the end of `position` *)
+Theorem mark_attach_backward : forall d ps0 F i j ma ba,
+  is_forward d = false ->
+  (forall k, udepth_le MAX_NESTING_LEVEL ps0 k) ->
+  position_finish_offsets d true ps0 = Some F ->
+  chain (getp ps0 i) <> 0 -> atype (getp ps0 i) = ATTACH_MARK -> parent_index ps0 i = Some j -> (j < i)%nat ->
+  xo (getp ps0 i) = fst ba - fst ma -> yo (getp ps0 i) = snd ba - snd ma ->
+  anchor_abs (rev F) (length F - 1 - i) ma = anchor_abs (rev F) (length F - 1 - j) ba.
+Proof.
+  intros d ps0 F i j ma ba Hf Hd Hrun Hc Ht Hp Hji Hx Hy.
+  destruct (finish_resolved d ps0 F Hd Hrun) as (Hl & Ha & _ & Hr).
+  assert (Hi : (i < length F)%nat) by (rewrite Hl; apply chain_nonzero_in_range; exact Hc).
+  specialize (Hr i Hc). rewrite Hp in Hr.
+  unfold accum_val, accum_sum in Hr. rewrite Ht, Hf in Hr. cbn in Hr.
+  destruct (pen_diff (rev F) (length F - 1 - i) (length F - 1 - j) ltac:(lia)) as [Px Py].
+  replace (length F - 1 - j - (length F - 1 - i))%nat with (i - j)%nat in Px, Py by lia.
+  rewrite adv_sum_rev in Px, Py by lia.
+  replace (length F - (length F - 1 - i) - (i - j))%nat with (S j) in Px, Py by lia.
+  rewrite (adv_sum_ext (i - j) ps0 F (S j) Ha) in Px, Py.
+  unfold anchor_abs, origin. rewrite !getp_rev by lia.
+  replace (length F - 1 - (length F - 1 - i))%nat with i by lia.
+  replace (length F - 1 - (length F - 1 - j))%nat with j by lia.
+  rewrite Hr. cbn [xo yo set_xo set_yo set_chain fst snd].
+  f_equal; lia.
+Qed.
+
+(* ---------- geometry: cursive, cross axis ---------- *)
+
+(* a cursive child c of parent p: on the cross axis the child's offset accumulates the parent's;
+   with the cross offset the attachment wrote (exit - entry or entry - exit, see cursive_cross) the two
+   anchors get the same cross coordinate.  `cross` selects the cross-axis component. *)
+Definition cross_off (d : direction) (p : pos) : Z := if is_horizontal d then yo p else xo p.
+Definition cross_of (d : direction) (a : anchor) : Z := if is_horizontal d then snd a else fst a.
+
+Theorem cursive_cross_final : forall d ps0 F c p a_c a_p,
+  (forall k, udepth_le MAX_NESTING_LEVEL ps0 k) ->
+  position_finish_offsets d true ps0 = Some F ->
+  chain (getp ps0 c) <> 0 -> atype (getp ps0 c) = ATTACH_CURSIVE -> parent_index ps0 c = Some p ->
+  cross_off d (getp ps0 c) = cross_of d a_p - cross_of d a_c ->
+  cross_off d (getp F c) + cross_of d a_c = cross_off d (getp F p) + cross_of d a_p.
+Proof.
+  intros d ps0 F c p a_c a_p Hd Hrun Hc Ht Hp Hoff.
+  destruct (finish_resolved d ps0 F Hd Hrun) as (_ & _ & _ & Hr).
+  specialize (Hr c Hc). rewrite Hp in Hr.
+  unfold accum_val in Hr. rewrite Ht in Hr. cbn in Hr.
+  unfold cross_off in *. rewrite Hr. destruct (is_horizontal d); cbn; lia.
+Qed.
+
+(* ---------- recursion depth ---------- *)
+
+(* the nesting argument bounds the recursion depth of propagate *)
+Lemma propagate_depth_le : forall n ps i, (propagate_depth n ps i <= n)%nat.
+Proof.
+  induction n; intros ps i; cbn.
+  - destruct (chain (getp ps i) =? 0); [lia|]. destruct (parent_index ps i); lia.
+  - destruct (chain (getp ps i) =? 0); [lia|]. destruct (parent_index ps i); [|lia].
+    specialize (IHn (upd ps i (set_chain (getp ps i) 0)) n0). lia.
+Qed.
+
+(* the witness family for the unbounded recursion of the unrepaired code: n glyphs, each the cursive
+   child of its successor (what the RightToLeft lookup flag produces): the call on glyph 0 nests n-1 deep *)
+Definition chain_fwd (n : nat) : list pos := repeat (mkPos 0 0 0 0 1 ATTACH_CURSIVE) n.
+
+Lemma getp_chain_fwd : forall n k, (k < n)%nat -> getp (chain_fwd n) k = mkPos 0 0 0 0 1 ATTACH_CURSIVE.
+Proof. intros. unfold getp, chain_fwd. apply nth_repeat_lt. assumption. Qed.
